@@ -14,6 +14,11 @@ from concurrent.futures import ThreadPoolExecutor
 
 HERE = os.path.dirname(os.path.dirname(os.path.abspath(__file__)))
 PROPS = [c["property_id"] for c in json.load(open(os.path.join(HERE, "MANIFEST.json")))["checks"]]
+# --props C01,C07,... restricts the run to the checks whose rules changed since the last full run
+for _a in list(sys.argv[1:]):
+    if _a.startswith("--props="):
+        PROPS = [p for p in PROPS if p in _a.split("=", 1)[1].split(",")]
+        sys.argv.remove(_a)
 
 
 def run(patch):
